@@ -19,6 +19,9 @@
       values (an iff), from the token list on; [C13_unquoted_exact_text] is the same iff
       from the TEXT of the line (tokenizer step: [C13_tokenize_unquoted]).
       The witnesses [C13_witness_*] go through the whole of [plan] from the text.
+    - [C13_dq_in_alias_body] (FULL, text level): [C13_dq] when the double-quoted word is written in
+      the value of an alias used as the command word: expand_alias inserts the value's tokens
+      WITH their tags.
     - [C13_glob_blank] (FULL, text level): filename expansion -- a pattern word whose matched
       paths all hold a blank (in ANY component: the tag is decided on the whole path,
       [C13_glob_tag_whole_path]) plans as one command, each path one double-quoted word, no
@@ -35,7 +38,7 @@
 From Coq Require Import List NArith ZArith Bool.
 From Cicada Require Import Base.Chars Base.Tag Model.Tokenizer Model.Expand Model.ExpandRef Model.Redirect Model.FullPlan.
 From Cicada Require Import Proofs.TokenizerProofs Proofs.TokenizerWordProofs Proofs.SubstProofs Proofs.ExpandBasics Proofs.C13Proofs.
-From Cicada Require Proofs.ExpandUntagged Proofs.GlobTagProofs.
+From Cicada Require Proofs.ExpandUntagged Proofs.GlobTagProofs Proofs.AliasBodyProofs.
 From Cicada Require Proofs.RedirectProofs Proofs.PlanInert Proofs.ExpandInert.
 Import ListNotations.
 From Coq Require String.
@@ -315,6 +318,41 @@ Proof. vm_compute. repeat split. Qed.
 Print Assumptions C13_glob_tag_whole_path.
 Print Assumptions C13_expand_glob_one.
 Print Assumptions C13_glob_blank.
+
+(* ------------------------------------------------------------------ round 5: a double-quoted reference written in an ALIAS BODY *)
+(** [C13_dq] for the delivery path "alias body": the line is the alias word plus quoted
+    arguments; the alias value is a command line as in [C13_dq] (command word that is not itself
+    an alias, quoted arguments, one double-quoted word with a reference).  [expand_alias] runs
+    first and inserts the TOKENS of the value, tags included, so the value of the reference is
+    ONE argument: one foreground command, the body's words then the line's arguments, no
+    redirection / pipe / background, for every value without backquote and dollar-paren. *)
+Theorem C13_dq_in_alias_body : forall W fuel (aname : str) (args : list (nat * qarg))
+    cmd (bargs1 bargs2 : list (nat * qarg)) n noeq br (pre name post : str),
+  plain_word aname = true -> forallb arith_body aname = false ->
+  aname <> s2l "xargs" -> aname <> s2l "export" -> (exists c, In c aname /\ ExpandInert.arith_char c = false) ->
+  forallb (fun '(_, a) => wf_qarg a) args = true -> Forall (fun '(_, a) => calm_qarg a) args ->
+  aliases W aname = Some (render_cmd cmd (bargs1 ++ (n, QDq (pre ++ render_piece (PRef br name) ++ post)) :: bargs2)) ->
+  plain_word cmd = true -> forallb arith_body cmd = false -> split_env cmd = None -> ExpandInert.cmd_ok W cmd ->
+  forallb (fun '(_, a) => wf_qarg a) bargs1 = true -> forallb (fun '(_, a) => wf_qarg a) bargs2 = true ->
+  Forall (fun '(_, a) => calm_qarg a) bargs1 -> Forall (fun '(_, a) => calm_qarg a) bargs2 ->
+  wf_qarg (QDq (pre ++ render_piece (PRef br name) ++ post)) = true ->
+  ~ In 36 pre -> ~ In 36 post -> forallb (okg noeq) (pre ++ post) = true -> is_name name = true ->
+  (br = true \/ match post with c :: _ => is_alnum_us c = false | [] => True end) ->
+  ~ In 96 (pre ++ key_value W name ++ post) -> has_dollar_paren (pre ++ key_value W name ++ post) = false ->
+  plan W fuel (render_cmd aname args)
+  = Ok (one_cmd ((TNone, cmd) :: toks_of bargs1 ++ (TDq, pre ++ key_value W name ++ post) :: toks_of bargs2 ++ toks_of args)).
+Proof. exact AliasBodyProofs.plan_dq_in_alias_body. Qed.
+
+(** the seeded scenario, computed from the text: alias show = prog y (dq)$A(dq) z ; A = a>b ; line  show 'w' *)
+Definition W_alias : World :=
+  mkWorld (fun _ => None) (fun k => if str_eqb k (s2l "A") then Some (s2l "a>b") else None) 0%Z 1%Z (s2l "/h")
+          (fun _ => Some []) (fun _ => Some [])
+          (fun k => if str_eqb k (s2l "show") then Some (s2l "prog y " ++ [34] ++ s2l "$A" ++ [34] ++ s2l " z") else None).
+Example C13_witness_alias_body :
+  plan W_alias 5 (s2l "show 'w'") = Ok (one_cmd [tk "prog"; tk "y"; (TDq, s2l "a>b"); tk "z"; (TSq, s2l "w")]).
+Proof. vm_compute. reflexivity. Qed.
+
+Print Assumptions C13_dq_in_alias_body.
 
 Check C13_dq.
 Check C13_unquoted_partial : forall W fuel cmd l1 l2 noeq br pre name post,
